@@ -901,6 +901,10 @@ func c09Judge(r *Run, id string, cse *c09Case, resp drvResp, resps map[string]dr
 					r.Violation("go/invalid-argument-not-reported/via-reference-to-named-collection", fmt.Sprintf("Go builder %s: Build() succeeds although the argument of %s violates a %s constraint at %s (reached through %s)", cse.b.Name, cse.callName(cse.faultAt), f.Class, strings.Join(f.Path, "."), ch), replay)
 					return
 				}
+				if marker := cueDefaultLoss(cse.cs.Format, f.Class, rawTag, leafAt(cse.doc, f.Path)); marker != "" {
+					r.Violation("go/invalid-argument-not-reported/"+marker, fmt.Sprintf("Go builder %s: Build() succeeds although the argument of %s violates a %s constraint at %s", cse.b.Name, cse.callName(cse.faultAt), f.Class, strings.Join(f.Path, ".")), replay)
+					return
+				}
 				r.Violation("go/invalid-argument-not-reported/"+cse.cs.Format+"/"+f.Class+"/"+rawTag+"/"+chain, fmt.Sprintf("Go builder %s: Build() succeeds although the argument of %s violates a %s constraint at %s", cse.b.Name, cse.callName(cse.faultAt), f.Class, strings.Join(f.Path, ".")), replay)
 			}
 			return
@@ -924,6 +928,8 @@ func c09Judge(r *Run, id string, cse *c09Case, resp drvResp, resps map[string]dr
 			case strings.Contains(chain, "collection"):
 				// root cause: Python options only check arguments that are themselves constrained scalars
 				key = "python/invalid-argument-not-reported/inside-collection"
+			case cueDefaultLoss(cse.cs.Format, f.Class, pyTag, leafAt(cse.doc, f.Path)) != "":
+				key = "python/invalid-argument-not-reported/" + cueDefaultLoss(cse.cs.Format, f.Class, pyTag, leafAt(cse.doc, f.Path))
 			}
 			r.Violation(key, fmt.Sprintf("Python builder %s: %s accepts %s which violates a %s constraint at %s", cse.b.Name, cse.callName(cse.faultAt), truncate(string(mustJSONBytes(cse.callArgs(cse.faultAt))), 100), f.Class, strings.Join(f.Path, ".")), replay)
 		} else if resp.CallErrAt != cse.faultAt {
